@@ -289,6 +289,10 @@ func runCase(ci int, c Case, hooks bool) (evs []Event, note string) {
 		NF: &cfg.NF, NM: &cfg.NM, Kinds: &kindsCopy, PO: &cfg.PO, Hooks: &hk, Case: ci})
 
 	var g *gate
+	gated := map[string]bool{}
+	for _, e := range c.Ev {
+		gated[e.T] = true
+	}
 	if c.Mode == "sched" {
 		g = newGate(c.Ev, 3*time.Second)
 		defer g.close()
@@ -357,12 +361,13 @@ func runCase(ci int, c Case, hooks bool) (evs []Event, note string) {
 			}
 			rec.add(gname, Event{Ev: ev, ID: id, A: a, B: b, Err: err != nil})
 			if g != nil {
-				switch ev {
-				case "enq":
+				// only the event kinds the schedule contains are forced (a server script has answers only)
+				switch {
+				case ev == "enq" && gated["enq"]:
 					g.wait(func(e SchedEv) bool { return e.T == "enq" && e.I == a })
-				case "deq":
+				case ev == "deq" && gated["proc"]:
 					g.wait(func(e SchedEv) bool { return e.T == "proc" && e.I == a })
-				case "done":
+				case ev == "done" && gated["proc"]:
 					g.procDone()
 				}
 			}
@@ -393,14 +398,11 @@ func runCase(ci int, c Case, hooks bool) (evs []Event, note string) {
 			g.close()
 		}
 	}
-	fin := Event{Ev: "ret", A: ret, B: completed, Err: serr != nil, Note: note}
+	// "ret" is recorded the moment Scan returns: a delivery that shows up after it (Scan returned
+	// before the scan was complete) is refused by the monitor
+	rec.add("main", Event{Ev: "ret", A: ret, B: completed, Err: serr != nil, Note: note})
 	if completed == 1 {
-		// let late deliveries (after Scan returned) show up in the trace
-		time.Sleep(200 * time.Microsecond)
-	}
-	rec.add("main", fin)
-	if completed == 1 {
-		time.Sleep(300 * time.Microsecond)
+		time.Sleep(500 * time.Microsecond)
 		cp, ps, un, nf := s.VerifCTCounters()
 		rec.add("main", Event{Ev: "counters", ID: int(cp), A: ps, B: un, Pos: int(nf)})
 	}
